@@ -92,10 +92,12 @@ def toCall : Op → Option Ownership.Call
   | .deepCopy _ _ => none
 
 /-- the specification's answer; `none` = the spec leaves the outcome open (or stopped following) -/
-def specStep (w : Ownership.World) (op : Op) : Option (Ownership.World × Ownership.Effect) :=
+def specStep (w : Ownership.World) (op : Op) (ret : Int) : Option (Ownership.World × Ownership.Effect) :=
   match op with
   | .deepCopy src none => w.deepCopy src
-  | .deepCopy _ (some _) => none            -- injected shallow-copy failure: handled by `specOpen`
+  -- injected shallow-copy failure: whether the k-th shallow copy exists is not the specification's
+  -- business; it follows a copy that succeeded and leaves a failed one open
+  | .deepCopy src (some _) => if ret = 0 then w.deepCopy src else none
   | .arrPut _ idx _ | .arrIns _ idx _ =>
     -- a request of 2^40 .. 2^61 slots: refused by the allocator, not by the specification
     if idx + 1 > 2 ^ 40 ∧ !Ownership.idxImpossible idx then none else (toCall op).bind w.call
@@ -146,11 +148,12 @@ def step (s : St) (w : List String) : St × Out :=
     match s.m with
     | none => (s, { model := "model-stopped-earlier" })
     | some m =>
-      let line := s!"end nodes={m.heap.length} mem={m.heap.blocks}"
+      let left (n blocks : Nat) : String := if n ≠ 0 then "n/a" else if blocks = 0 then "yes" else "no"
+      let line := s!"end nodes={m.heap.length} none-left={left m.heap.length m.heap.blocks} ## mem={m.heap.blocks}"
       let spec := match s.w with
-        | some wd => s!"end nodes={wd.nodes.length}"
+        | some wd => s!"end nodes={wd.nodes.length} none-left={left wd.nodes.length 0}"
         | none => "*"
-      (s, { model := line ++ " ## -", spec := spec })
+      (s, { model := line, spec := spec })
   | _ =>
   match parseOp w with
   | none => (s, { model := "bad-op" })
@@ -168,7 +171,7 @@ def step (s : St) (w : List String) : St × Out :=
         let (sline, w') := match s.w with
           | none => ("*", none)
           | some wd =>
-            match specStep wd op with
+            match specStep wd op r.ret with
             | some (wd', e) => (specLine e.ret e.made e.callbacks e.destroyed, some wd')
             | none => ("*", none)
         -- where the spec leaves the outcome open, it resynchronises on the model's graph only when the
